@@ -8,6 +8,7 @@ import (
 	"voicheck/edt"
 	"voicheck/elin"
 	"voicheck/erange"
+	"voicheck/esib"
 )
 
 // C07 — X25519 (RFC 7748): entry-point decision table, clamping, ladder
@@ -386,6 +387,8 @@ func init() {
 			}
 		}
 		erange.DeclareFieldRules(run, "RANGE-A", rangeCfgs)
+		al := run.Rule("ALIAS", "X25519 and the curve operations compute the same result when two same-typed pointer parameters denote one object", 80)
+		run.Rule("SIB-scan", "constant-time lookups scan every entry exactly once", 5)
 		dt := run.Rule("DT-x25519", "X25519 entry points, ladder and conversions have exactly the RFC 7748 structure", 20)
 		for _, id := range c.Configs() {
 			p := c.Prog(id)
@@ -399,6 +402,12 @@ func init() {
 			}
 			if id == c.Configs()[0] {
 				errRulesFor(run, p, "primitives/x25519")
+				// in-place use (ScalarMult(&k, &k, &u), the RFC 7748 iteration) computes the same function
+				run.Sample(checkAliasing(al, p, []string{"primitives/x25519", "curve"}))
+				// the fixed-base routine reads the constant-time base-point tables
+				esib.CheckMaskedScan(run, p, "SIB-scan")
+			} else if id == "purego" {
+				esib.CheckMaskedScan(run, p, "SIB-scan")
 			}
 			if id != "amd64" {
 				erange.CheckFieldStageA(run, p, "RANGE-A")
